@@ -9,6 +9,7 @@ import (
 	"fmt"
 	"io"
 	"net/http"
+	"net/http/httptest"
 	"strings"
 	"sync/atomic"
 
@@ -102,6 +103,7 @@ func checkStream(c streamCase, o optSet) (string, string) {
 		if mdHasTrailer(c.MD) {
 			s.SetTrailer(metadata.Pairs("t-key", "t-val"))
 		}
+		c.Collide.applyStream(s, c.Code)
 		for i := 0; i < c.NMsgs; i++ {
 			if err := s.SendMsg(wrapperspb.String("resp")); err != nil {
 				return err
@@ -110,7 +112,13 @@ func checkStream(c streamCase, o optSet) (string, string) {
 		return handlerErr(c.Code, c.OKErr, c.Msg, c.Details)
 	}}}}
 	srv.RegisterService(svc.Desc(), common.Impl{})
-	so := streamCall(common.HandlerRT(srv), o)
+	rt := common.HandlerRT(srv)
+	if c.Wire {
+		ts := httptest.NewServer(srv)
+		defer ts.Close()
+		rt = wireRT(ts)
+	}
+	so := streamCall(rt, o)
 	obs := so.obs(o)
 	if so.panicked != nil {
 		return "stream-panic", fmt.Sprintf("%s panic=%v", obs, so.panicked)
